@@ -131,6 +131,23 @@ impl MemoryArea {
     }
 }
 
+#[cfg(feature = "ax_verif")]
+impl MemoryArea {
+    pub(crate) fn verif_view(&self) -> crate::verif::AreaView {
+        crate::verif::AreaView {
+            start: self.start,
+            length: self.length,
+            access: self.access,
+            name: self.name.clone(),
+            data: self.data.clone(),
+        }
+    }
+
+    pub(crate) fn verif_with<F: FnMut(u64, u32, &[u8])>(&self, f: &mut F) {
+        f(self.start, self.access, &self.data)
+    }
+}
+
 #[wasm_bindgen]
 impl Axecutor {
     // TODO: Currently cannot read consecutive sections of memory
